@@ -83,7 +83,7 @@ async def explore(tier, seed, m):
     t0 = time.time()
     for si in range(nschemas):
         if time.time() - t0 > (100 if tier == "quick" else 1500): break
-        sg = SchemaGen(rng, with_subscription=True)
+        sg = SchemaGen(rng, with_subscription=True, custom_scalar=(True if si % 4 == 3 else None))
         renv = sg.gen_env(adv=0.05, fail=0.15)
         for coord in list(renv["resolvers"]):
             if coord.startswith("Subscription."):
@@ -100,7 +100,20 @@ async def explore(tier, seed, m):
                 else: evs.append({"d": [["other", {"i": "1"}]]})
             sources[f["name"]] = evs
         log = []
-        b = await build(sg, renv, sources, log)
+        # every fourth schema: the custom scalar's input coercion is NOT idempotent (it wraps strings): coercing the caller's
+        # variables once per event must start from the caller's values every time (no comparison with the model there)
+        nonidem = si % 4 == 3
+        saved_scalar = er.CustomScalar
+        if nonidem:
+            class WrappingScalar(saved_scalar):
+                def coerce_input(self, v):
+                    v = super().coerce_input(v)
+                    return f"in<{v}>" if isinstance(v, str) else v
+            er.CustomScalar = WrappingScalar
+        try:
+            b = await build(sg, renv, sources, log)
+        finally:
+            er.CustomScalar = saved_scalar
         for di in range(ndocs):
             dg = DocGen(sg, rng)
             # no nullable variable at a non-null argument position: a null there fails ARGUMENT coercion while the source is
@@ -129,12 +142,16 @@ async def explore(tier, seed, m):
             init = None
             if rng.random() < 0.3:
                 init = {"d": [[f["name"], sg.value_for(f["type"], 1, 0.0)]]}
+            import copy as _copy
+            pristine = _copy.deepcopy(variables)
             try:
                 async for payload in b.engine.subscribe(q, operation_name=opn, variables=variables, initial_value=dec(init) if init is not None else None):
                     resps.append(payload)
             except Exception as e:
                 stats["problems"].append({"what": [f"subscribe raised {type(e).__name__}: {e}"[:300]], "query": q, "variables": variables, "kind": kind}); continue
             stats["evaluations"] += 1
+            changed_vars = variables != pristine or repr(variables) != repr(pristine)
+            if changed_vars: variables = pristine      # (the reference below is computed from the request as it was sent)
             events = sources[f["name"]]
             starts = [x for x in log if x[0] == "start"]
             pr = []
@@ -143,6 +160,7 @@ async def explore(tier, seed, m):
                 doc = er.parse_doc(q); syntax_ok = True
             except Exception:
                 doc, syntax_ok = None, False
+            if changed_vars: pr.append("the variables object the caller passed was modified while the stream was consumed: the variables are coerced again for every event, so later events are answered from other values than the request's")
             sv = orc.SchemaView(b.model)
             refused = (not syntax_ok) or kind in ("validation-error", "unknown-operation", "syntax-error")
             if syntax_ok and not refused:
@@ -162,7 +180,7 @@ async def explore(tier, seed, m):
                     if json.dumps(enc(exp.get("data"))) != json.dumps(enc(got.get("data"))) or len(exp.get("errors") or []) != len(got.get("errors") or []):
                         pr.append(f"response #{i} differs from executing the selection against event #{i}"); break
                 # source arguments = spec-coerced arguments of the root field
-                if starts and syntax_ok:
+                if starts and syntax_ok and not nonidem:
                     op = orc.operation_of(doc, opn)
                     coerced, _ = orc.coerce_variables_spec(sv, op, variables)
                     sub = orc.collect(sv, doc, sv.root("subscription"), op["selectionSet"], orc.effective_bool_vars(op, variables))
@@ -178,7 +196,7 @@ async def explore(tier, seed, m):
             if len(resps) >= 2: stats["nontrivial"].add(h)
             stats["events"] += len(events)
             # model
-            if m is not None and not pr and syntax_ok and kind != "validation-error":
+            if m is not None and not pr and syntax_ok and kind != "validation-error" and not nonidem:
                 req = er.model_request(b, q, opn, variables, None, renv)
                 req["op"] = "subscribe"; req["events"] = events
                 strs = set(req["stf"].keys())
